@@ -675,32 +675,48 @@ class IMMachine(FormatMachine):
             m["compose"] = dict(after["compose"])
         else:
             s.tainted = True
+        merged_cells = copy.deepcopy(cells_expected(m))
+        merged_cells.setdefault(variant, {})[arch] = [norm_image(img)]
+        only_cells = {variant: {arch: [norm_image(img)]}}
         if collide:
             CTX.fault("F3.colliding_pair_injected")
-            if raised is None:
-                raise Violation("C09", "C09.colliding_document_rejected", "colliding-document-merged-into-live-manifest/v%s" % ver,
-                                {"version": ver, "identity": list(identity(img))[:5]})
+        if raised is not None:
+            if not collide:
+                raise Violation("C09", "C09.valid_add_accepted", "valid-document-refused-by-live-manifest/%s" % exc_class(raised),
+                                {"error": exc_class(raised), "msg": str(raised)[:160]})
             if not isinstance(raised, ValueError):
                 raise Violation("C09", "C09.refusal_is_valueerror", "exctype/load-onto/%s" % exc_class(raised), {"error": exc_class(raised)})
-            if after["cells"] != before["cells"]:
-                raise Violation("C09", "C09.refused_add_changes_nothing", "refused-load-changed-cells", {"diff": first_diff(before["cells"], after["cells"])})
             CTX.probe("c09.colliding_document_onto_live_refused")
+            if after["cells"] != before["cells"]:
+                s.tainted = True        # what a refused load leaves behind is not specified
             return "refused:" + exc_class(raised)
-        if raised is not None:
-            raise Violation("C09", "C09.valid_add_accepted", "valid-document-refused-by-live-manifest/%s" % exc_class(raised),
-                            {"error": exc_class(raised), "msg": str(raised)[:160]})
-        iid = "M%d" % n
-        m["imgs"][iid] = img
-        m["cells"].setdefault(variant, {}).setdefault(arch, []).append(iid)
-        m["version"] = CURRENT
-        live = list(s.obj.images.get(variant, {}).get(arch, ()))
-        if len(live) == 1:
-            s.pool[iid] = live[0]
-        d = first_diff(cells_expected(m), after["cells"])
-        if d:
-            raise Violation("C09", "C09.add_changes_only_addressed_cell", "load-onto-effect-differs/%s" % diff_key(d), {"diff": d})
-        self.check_unique(s, "after-load-onto")
-        return "merged"
+        # accepted: whether load MERGES into what the object holds (pinned behaviour) or REPLACES it is not the property's
+        # business - but the manifest that results must not hold a colliding pair, and must be one of the two
+        if collisions(after["cells"]):
+            raise Violation("C09", "C09.colliding_document_rejected", "colliding-document-merged-into-live-manifest/v%s" % ver,
+                            {"version": ver, "identity": list(identity(img))[:5]})
+        if first_diff(merged_cells, after["cells"]) is None and not collide:
+            iid = "M%d" % n
+            m["imgs"][iid] = img
+            m["cells"].setdefault(variant, {}).setdefault(arch, []).append(iid)
+            m["version"] = CURRENT
+            live = list(s.obj.images.get(variant, {}).get(arch, ()))
+            if len(live) == 1:
+                s.pool[iid] = live[0]
+            self.check_unique(s, "after-load-onto")
+            return "merged"
+        if first_diff(only_cells, after["cells"]) is None:
+            # replace semantics: the manifest now is the document
+            iid = "M%d" % n
+            m["imgs"] = {iid: img}
+            m["cells"] = {variant: {arch: [iid]}}
+            m["version"] = CURRENT
+            live = list(s.obj.images.get(variant, {}).get(arch, ()))
+            s.pool = {iid: live[0]} if len(live) == 1 else {}
+            CTX.probe("c09.load_onto_replaced_content")
+            return "replaced"
+        d = first_diff(merged_cells, after["cells"])
+        raise Violation("C09", "C09.add_changes_only_addressed_cell", "load-onto-effect-differs/%s" % diff_key(d), {"diff": d})
 
     def op_im_downgrade(self, op):
         """F8: the stored manifest is rewritten the way format 1.0 / 1.1 would have held it (independent
